@@ -168,7 +168,7 @@ class Check(PropertyCheck):
         self.mismatches = hung[:3] + [kept[i] for i in failing]
         if hung:
             self.ob("correspondence", "every generated history terminates on the implementation", False,
-                    "did not finish within 2 s: " + json.dumps(hung[0]))
+                    "did not finish within 2 s of CPU time: " + json.dumps(hung[0]))
 
     # ------------------------------------------------------------------
     def judge(self, prog, origin):
@@ -183,7 +183,7 @@ class Check(PropertyCheck):
             detail = str(e)
             if sum(1 for f in self.findings if f.key.startswith("hang:")) < 2:
                 self.findings.append(Finding(f"hang:{json.dumps(prog)}"[:300],
-                                             "the implementation does not finish this history within 2 s: " + detail,
+                                             "the implementation does not finish this history within 2 s of CPU time: " + detail,
                                              {"kind": "history", "prog": prog, "key": "hang", "origin": origin}))
             self.hangs = getattr(self, "hangs", 0) + 1
             return []
@@ -259,7 +259,7 @@ class Check(PropertyCheck):
                 it = run_history(r["prog"])
             except HistoryTimeout as e:
                 print("history:", json.dumps(r["prog"]))
-                print("FAILS: hang - the implementation does not finish this history within 2 s:", e)
+                print("FAILS: hang - the implementation does not finish this history within 2 s of CPU time:", e)
                 return 1
             print("history:", json.dumps(r["prog"]))
             print("user-callback log:", it.calls)
